@@ -140,6 +140,9 @@ func (h *PrimevCommitmentHandler) HandleMessage(ctx context.Context, msg p2pmsg.
 func getBidderNodeAddress(digest, signature string) (*common.Address, error) {
 	digestBytes := common.FromHex(digest)
 	signatureBytes := common.FromHex(signature)
+	if len(signatureBytes) != crypto.SignatureLength {
+		return nil, errors.Errorf("bid signature must be %d bytes, got %d", crypto.SignatureLength, len(signatureBytes))
+	}
 
 	if signatureBytes[64] == 27 || signatureBytes[64] == 28 {
 		signatureBytes[64] -= 27 // Transform V from 27/28 to 0/1
